@@ -187,8 +187,14 @@ sc_reduce_recursive (sc_MPI_Comm mpicomm,
                               peer, SC_TAG_REDUCE, mpicomm, &rstatus);
         SC_CHECK_MPI (mpiret);
 
-        /* execute reduction operation here */
-        reduce_fn (peerdata, data, count, datatype);
+        /* execute reduction operation here, operands in rank order */
+        if (myrank < peer) {
+          reduce_fn (peerdata, data, count, datatype);
+        }
+        else {
+          reduce_fn (data, peerdata, count, datatype);
+          memcpy (data, peerdata, datasize);
+        }
         SC_FREE (peerdata);
       }
 
